@@ -103,7 +103,7 @@ class Minimiser:
             for key, small in (("size", [1, 1201]), ("count", [2, 4]), ("t", [0.0])):
                 if key in op:
                     for v in small:
-                        if op[key] is not None and v < op[key]:
+                        if isinstance(op[key], (int, float)) and not isinstance(op[key], bool) and v < op[key]:
                             cand = copy.deepcopy(self.best)
                             cand["ops"][i][key] = v
                             if self._try(cand):
